@@ -8,6 +8,7 @@ import (
 	"google.golang.org/protobuf/reflect/protoregistry"
 	"google.golang.org/protobuf/runtime/protoimpl"
 	"google.golang.org/protobuf/verifmc/core"
+	"google.golang.org/protobuf/verifmc/twin"
 	"google.golang.org/protobuf/verifmc/univ"
 )
 
@@ -215,19 +216,19 @@ func aberrant(c *core.Ctx) {
 			}
 		}
 		// (f) behaviour = dynamicpb over the derived descriptor
-		tw := newTwin(a.name, univ.Flavor{Name: a.name, MT: mt, Res: protoregistry.GlobalTypes}, univ.DynFlavor(md))
+		tw := twin.New("legacy message", a.name, univ.Flavor{Name: a.name, MT: mt, Res: protoregistry.GlobalTypes}, univ.DynFlavor(md))
 		k := 2
-		alpha := univ.Alphabet(md, 1, univ.Opt{Thin: c.Quick(), NoExt: true, NoUnknown: tw.noUnknown})
+		alpha := univ.Alphabet(md, 1, univ.Opt{Thin: c.Quick(), NoExt: true, NoUnknown: tw.NoUnknown})
 		n := univ.TupleCount(len(alpha), k)
 		univ.ForTuples(c, len(alpha), k, func(idx []int) {
-			compareBuilt(c, tw, univ.PickSlots(alpha, idx, nil))
+			twin.CompareBuilt(c, tw, univ.PickSlots(alpha, idx, nil))
 		})
 		c.DistinctN(int64(n))
 		recs := univ.WireAlphabet(md, univ.WireOpt{AllFields: true, Depth: 1})
 		nw := univ.TupleCount(len(recs), k)
 		univ.ForTuples(c, len(recs), k, func(idx []int) {
 			in, nm := univ.Concat(recs, idx)
-			compareWire(c, tw, in, nm)
+			twin.CompareWire(c, tw, in, nm)
 		})
 		c.DistinctN(int64(nw))
 		c.Bounds["aberrant:"+a.name] = map[string]any{"slot_alphabet": len(alpha), "messages": n, "wire_alphabet": len(recs), "wire_sequences": nw}
